@@ -311,7 +311,8 @@ class DeepSearch(dict):
         elif isinstance(obj, strings) and isinstance(item, (strings, RE_COMPILED_TYPE)):
             self.__search_str(obj, item, parent)
 
-        elif isinstance(obj, strings) and isinstance(item, numbers):
+        elif isinstance(obj, strings):
+            # a string can only match a string or a regular expression
             return
 
         elif isinstance(obj, ipranges):
